@@ -780,7 +780,9 @@ def search(ctx):
 
 
 BIG_SHAPES = [(4, 5), (5, 4), (5, 5), (6, 6), (7, 7), (3, 7), (7, 3), (2, 8), (4, 4)]
-BIG_SHAPES_THOROUGH = [(4, 6), (6, 4), (5, 6), (6, 5), (6, 7), (7, 6), (8, 8), (9, 9), (2, 11), (11, 2)]
+BIG_SHAPES_THOROUGH = [(4, 6), (6, 4), (5, 6), (6, 5), (6, 7), (7, 6), (8, 8), (2, 11), (11, 2)]
+BIG_SHAPES_CHAINS = [(8, 8), (9, 9), (7, 10), (11, 11)]
+BIG_SHAPES_CHAINS_THOROUGH = [(10, 10), (9, 12), (12, 9), (13, 13)]
 
 
 def family(tag):
@@ -796,16 +798,26 @@ def search_big_boards(ctx, m, spec_reqs, spec_meta):
     inconclusive (never as accept or reject)."""
     import c08pat
     from cspuz.expr import IntVar
-    shapes = list(BIG_SHAPES) + (BIG_SHAPES_THOROUGH if (ctx.thorough or ctx.deep) else [])
-    for (h, w) in shapes:
+    deep = ctx.thorough or ctx.deep
+    shapes = [(h, w, True) for (h, w) in BIG_SHAPES + (BIG_SHAPES_THOROUGH if deep else [])]
+    # still larger boards: grid form only, mostly the maximal chains (what the rank range has to accommodate)
+    shapes += [(h, w, False) for (h, w) in BIG_SHAPES_CHAINS + (BIG_SHAPES_CHAINS_THOROUGH if deep else [])
+               if (h, w, True) not in shapes]
+    for (h, w, full) in shapes:
         n = h * w
         es = graphcap.grid_edges(h, w)
         gk = "%dx%d" % (h, w)
-        pats = c08pat.board_patterns(h, w, ctx.rng, n_random=40 if ctx.thorough else 16,
-                                     star_cap=60 if ctx.thorough else 24)
+        if full:
+            pats = c08pat.board_patterns(h, w, ctx.rng, n_random=40 if ctx.thorough else 16,
+                                         star_cap=60 if ctx.thorough else 24)
+        else:
+            pats = [(t, c) for (t, c) in c08pat.board_patterns(h, w, ctx.rng, n_random=6, star_cap=12)
+                    if t.startswith(("chain", "ring", "star", "random", "checker", "staircase"))]
         progs = {}
         for name, helper, kw in (("NA-grid", "NA", {"shape": (h, w)}), ("NS-grid", "NS", {"shape": (h, w)}),
                                  ("NS-gridgraph", "NS", {"n": n, "edges": es})):
+            if name == "NS-gridgraph" and not full:
+                continue
             s, av = posted(helper, **kw)
             if s is None:
                 ctx.violation("%s:%s:raises" % (name, gk), "helper raised on a valid grid", {"shape": [h, w], "error": av})
@@ -863,8 +875,9 @@ def search_big_boards(ctx, m, spec_reqs, spec_meta):
                               {"shape": [h, w], "pattern": bits(pat), "family": tag, "active_cells": sorted(cells),
                                "grid_accepts": obs["NS-grid"], "graph_accepts": obs["NS-gridgraph"]})
             if m is not None:
-                spec_reqs.append("SP %d %d B %s" % (h, w, " ".join(bits(pat))))
-                spec_meta.append(("grid", (h, w), es, pat))
+                if n <= 81 or ctx.thorough:
+                    spec_reqs.append("SP %d %d B %s" % (h, w, " ".join(bits(pat))))
+                    spec_meta.append(("grid", (h, w), es, pat))
                 if ns and h >= 2 and w >= 2:
                     rk_reqs.append("RK %d %d B %s" % (h, w, " ".join(bits(pat))))
                     rk_pats.append(pat)
@@ -1036,6 +1049,26 @@ def replay(ctx, rp):
         ok = r[0] == "ok" and all(isinstance(c, bool) for c in s.constraints) and all(s.constraints) == v["expected"]
         return 0 if ok else 1
     helper = v.get("helper", "NS")
+    if "variant" in v:  # a non-default call form / history
+        if "shape" in v:
+            h, w = v["shape"]
+            n, es = h * w, graphcap.grid_edges(h, w)
+            s, free, info = posted_v(helper, v["variant"], shape=(h, w))
+        else:
+            n, es = v["n"], [tuple(e) for e in v["edges"]]
+            s, free, info = posted_v(helper, v["variant"], n=n, edges=es)
+        print("arguments unchanged:", info["args_unchanged"])
+        if s is None:
+            print("raises", free)
+            return 1
+        if "free_pattern" not in v:
+            return 0 if info["args_unchanged"] else 1
+        sub = tuple(c == "1" for c in v["free_pattern"])
+        obs = Z3Prog(s).check(list(zip(free, sub)))
+        act = info["active_of"](sub)
+        exp = oracle_independent(es, act) if helper == "NA" else oracle_not_segmenting(n, es, act)
+        print("expected accept:", exp, " observed accept:", obs)
+        return 0 if obs == exp and info["args_unchanged"] else 1
     if "shape" in v and v.get("route") != "explicit graph":
         h, w = v["shape"]
         s, av = posted(helper, shape=(h, w))
